@@ -165,7 +165,15 @@ def rule_window_tiling(ctx: Ctx) -> None:
             incs[s.target.id] = af
     ctx.require(end_def is not None and end_def[0] is not None, "C19.2: 'end = begin + timedelta(...)' not found in main "
                                                                  "(unrecognised window idiom)")
-    ctx.require("begin" in incs and "end" in incs, "C19.2: 'begin += ...' / 'end += ...' not found in main")
+    if not ("begin" in incs and "end" in incs):
+        loops_ = [n for n in C.walk_shallow(main.node) if isinstance(n, ast.While)]
+        reassigned = [s_ for s_ in A.stores(main) if isinstance(s_.target, ast.Name) and s_.target.id in ("begin", "end") and loops_
+                      and A.is_within(s_.stmt, loops_[0])]
+        ctx.require(reassigned, "C19.2: 'begin += ...' / 'end += ...' not found in main")
+        ctx.bad("C19.2", "both window edges advance by one bar duration", main, reassigned[0].stmt,
+                f"the next window is not the previous one shifted by the bar duration ('{ast.unparse(reassigned[0].stmt)[:60]}' recomputes it inside the loop): "
+                "when a flush runs late the windows in between are never flushed and their trades end up in no bar", key_text="advance by D")
+        return
     (a, c), stmt = end_def
     ctx.check(incs["begin"] == (1.0, 0.0) and incs["end"] == (1.0, 0.0), "C19.2", "both window edges advance by one bar duration",
               main, stmt, "begin += D; end += D", f"window edges advance by {incs}: windows drift", key_text="advance by D")
@@ -466,8 +474,12 @@ def rule_row_mapping(ctx: Ctx) -> None:
               "sorted(events, key=lambda ev: ev.when)", "sorted loader does not sort ascending by 'when'", key_text="sort key")
     for q in ("load_sort_and_yield", "load_and_yield"):
         f2 = ctx.func(f"basana.core.event_sources.csv.{q}")
-        ok2 = any((A.call_name(c) or "").endswith("parse_row") for c in A.func_calls(f2)) and \
-            any((A.call_name(c) or "") == "open_file_with_detected_encoding" for c in A.func_calls(f2))
+        # directly, or by consuming the other loader of this module (which does)
+        reach_ = {f2.qualname} | {f"basana.core.event_sources.csv.{A.call_name(c)}" for c in A.func_calls(f2)
+                                  if A.call_name(c) in ("load_and_yield", "load_sort_and_yield") and A.call_name(c) != q}
+        fs_ = [ctx.repo.funcs[x] for x in reach_ if x in ctx.repo.funcs]
+        ok2 = any((A.call_name(c) or "").endswith("parse_row") for f_ in fs_ for c in A.func_calls(f_)) and \
+            any((A.call_name(c) or "") == "open_file_with_detected_encoding" for f_ in fs_ for c in A.func_calls(f_))
         ctx.check(ok2, "C19.3", f"{q} parses every row of the detected-encoding file", f2, f2.node, "DictReader rows -> parse_row",
                   "loader does not parse rows of the encoding-detected file", key_text=f"{q} shape")
 
